@@ -14,12 +14,13 @@ no symbolic execution).  One obligation per (function, effect clause):
   no_global_rng / key_discipline / no_time_dependence / no_unordered_iteration /
   calls_have_contract            (see pyvc/effects.py for the exact rules)
   no_shared_mutable_state        (pyvc/effects_state.py: class-level / module-level mutable objects that the code mutates)
+  no_uninitialised_read          (pyvc/effects_uninit.py: np.empty / jnp.empty storage is consumed only through an index)
 
 Obligation names: C09.<module>.<function qualname>.<clause>.
 """
 import os
 
-from pyvc import effects, effects_state
+from pyvc import effects, effects_state, effects_uninit
 from pyvc.runner import Task
 
 PROPERTY = "C09"
@@ -53,7 +54,11 @@ EXPLANATION = (
     "precondition; listed in the assumptions); (6) no hidden process-global mutable state: a class-level attribute whose value is "
     "not provably immutable, is not rebound in __init__ and is mutated in place somewhere in the package, or a module-level "
     "name that a function re-assigns through `global` or mutates in place, is a violation (a second run in the same process "
-    "would start from the first run's leftovers). A violated clause is a failed obligation naming file:line. Bit-identity of "
+    "would start from the first run's leftovers); (7) no read of uninitialised storage: an array allocated by np.empty / "
+    "jnp.empty / empty_like and held in a local or an instance attribute is consumed only through a subscript (the index or "
+    "slice names the cells read; C02 / C08 oblige those to be written cells), metadata, len() or fill() - a whole-array "
+    "reduction, arithmetic on it, or passing / returning it whole makes the result a function of the allocator's leftovers and "
+    "is a violation (arrays kept inside containers, i.e. the replay buffers' field dictionary, are C02's subject). A violated clause is a failed obligation naming file:line. Bit-identity of "
     "two runs is then DERIVED under the listed library-determinism assumptions (JAX/XLA CPU, NumPy, Gymnasium, Optax), it "
     "is not proved end to end. Replay of a failed obligation runs the flagged training routine twice with equal seeds and "
     "compares parameters/counters bitwise (replay/drivers/c09_twice.py)."
@@ -96,6 +101,20 @@ def _make(module, idx):
             E.st.fail("canary.shared_state_detected", "synthetic class-level list / module-level dict flagged (as required)")
         else:
             E.st.ok("canary.shared_state_detected")
+        # seventh clause: storage allocated with arbitrary contents (np.empty / jnp.empty) is read only through an index
+        # (pyvc/effects_uninit.py) - one obligation per tracked array
+        for r in effects_uninit.analyse_root(E.shared.loader.root):
+            if r["module"] != module:
+                continue
+            name = f"{r['owner']}.no_uninitialised_read[{r['name']}]"
+            if r["verdict"] == "ok":
+                E.st.ok(name, backend="effects")
+            else:
+                E.st.fail(name, r["detail"])
+        if effects_uninit.run_canary():
+            E.st.fail("canary.uninitialised_read_detected", "synthetic whole-array reads of np.empty storage flagged (as required)")
+        else:
+            E.st.ok("canary.uninitialised_read_detected")
         # vacuity canary: the same analysis on a synthetic violating module must flag it
         cname = _CANARY_FOR[idx % len(_CANARY_FOR)]
         found, clause = effects.run_canary(cname)
@@ -145,6 +164,8 @@ ASSUMPTIONS = [
 ]
 NOT_COVERED = [
     "bit-identity end to end (2-safety through JAX/XLA) is derived under the assumptions, not proved",
+    "uninitialised storage reached through an alias (`x = self.priority; x.max()`), inside a container (ReplayBuffer.buffer[k]: C02), "
+    "or through an over-long slice (`A[:n]` with n beyond the written prefix: C02 / C08 index obligations)",
     "heap aliasing: a wall-clock value stored in a container and read back through an alias with a different attribute name",
     "dynamic features (getattr with computed names, exec/eval, monkey patching), thread scheduling, XLA GPU non-determinism",
     "functions of rl_blox not reachable from the anchor files (e.g. logging.plot_stats, MemoryLogger.get_stat, which return wall-clock log fields)",
